@@ -82,6 +82,59 @@ def _r206(rep, fn, fa, events, pm):
                 break
 
 
+EMPTY_HOSTILE_STAR = {'set.union', 'set.intersection', 'frozenset.union', 'frozenset.intersection', 'max', 'min',
+                      'operator.add', 'itertools.product'}
+EMPTY_HOSTILE_ARG = {'max', 'min', 'functools.reduce', 'reduce'}
+
+
+def _r207(rep, fn, pm):
+    """A reduction that needs at least one operand (set.union(*xs), max(xs), reduce(f, xs)) is not applied to a
+    collection that is filled only inside a data loop: with zero data rows the collection is empty and the call raises."""
+    filled_in_loop = set()
+    created = {}
+    for x in own_nodes(fn.node):
+        if isinstance(x, ast.Assign) and len(x.targets) == 1 and isinstance(x.targets[0], ast.Name):
+            v = x.value
+            if (isinstance(v, (ast.List, ast.Set)) and not v.elts) or \
+                    (isinstance(v, ast.Call) and norm(v.func) in ('list', 'set') and not v.args):
+                created[x.targets[0].id] = x
+    if not created:
+        return 0
+    n = 0
+    grown_outside = set()
+    for x in own_nodes(fn.node):
+        if isinstance(x, ast.Call) and isinstance(x.func, ast.Attribute) and isinstance(x.func.value, ast.Name) and \
+                x.func.value.id in created and x.func.attr in ('append', 'add', 'extend', 'update'):
+            inloop = False
+            cur = x
+            while id(cur) in pm:
+                cur = pm[id(cur)]
+                if isinstance(cur, (ast.For, ast.While)):
+                    inloop = True
+                    break
+            (filled_in_loop if inloop else grown_outside).add(x.func.value.id)
+    maybe_empty = filled_in_loop - grown_outside
+    for x in own_nodes(fn.node):
+        if not isinstance(x, ast.Call):
+            continue
+        f = norm(x.func)
+        hit = None
+        if f in EMPTY_HOSTILE_STAR:
+            for a in x.args:
+                if isinstance(a, ast.Starred) and isinstance(a.value, ast.Name) and a.value.id in maybe_empty:
+                    hit = a.value.id
+        if f in EMPTY_HOSTILE_ARG and x.args and not any(k.arg in ('default', 'initial') for k in x.keywords):
+            a = x.args[-1] if f in ('functools.reduce', 'reduce') else x.args[0]
+            if isinstance(a, ast.Name) and a.id in maybe_empty and len(x.args) == (2 if 'reduce' in f else 1):
+                hit = a.id
+        if hit:
+            n += 1
+            rep.violated('R20.7', fn, norm(x)[:60],
+                         '`%s` is filled only inside a data loop, so it is empty for a table without data rows, and %s needs at '
+                         'least one operand: the call raises on a header-only table' % (hit, f), x)
+    return n
+
+
 def run(ctx):
     rep = ctx.report
     rep.explanation = (
@@ -102,6 +155,7 @@ def run(ctx):
                       'a real key (a None key equals it); it must be told apart by identity first')
     rep.rule('R20.5', 'a statement inside an except-StopIteration region takes an item from at most one possibly '
                       'exhausted iterator (otherwise the item already taken is lost when a later next() raises)')
+    rep.rule('R20.7', 'zero-trip reduction: set.union(*xs) / max(xs) / reduce(f, xs) without default is not applied to a collection filled only inside a data loop')
     rep.rule('R20.6', 'a list is not resized inside a loop that iterates over it (exhausted-input bookkeeping)')
     rep.rule('R20.3', 'zero-trip division: a divisor that may still be the literal 0 it was initialised with '
                       '(incremented only inside a data loop) is guarded')
@@ -123,6 +177,7 @@ def run(ctx):
         pm = fa.parents()
         _r205(rep, fn, fa, events, pm)
         _r206(rep, fn, fa, events, pm)
+        _r207(rep, fn, pm)
         for ev in events:
             if ev.kind == 'next':
                 v = ev.info['iter']
